@@ -441,3 +441,540 @@ def shrink_ty(t):
         if d["bound"][0] == "P" and len(d["bound"][1]) > 1:
             for i in range(len(d["bound"][1])):
                 yield ["ext", {**d, "bound": ["P", d["bound"][1][:i] + d["bound"][1][i + 1:]]}, args]
+
+
+# =============================================================================================== values (C14)
+"""
+val  ::= ["sum", tag, ty, [val..]] | ["unitsum", tag, size] | ["bool", b] | ["tuple", [val..]] | ["some", [val..]]
+       | ["none", [ty..]] | ["left", [val..], [ty..]] | ["right", [ty..], [val..]]
+       | ["func", "dfg"|"defn", [ty..], [out..]]      out ::= ["in", i] | ["const", val]  (val: int/bool/float)
+       | ["ext", name, ty, [ext..]] | ["int", v, w] | ["float", x] | ["string", s]
+       | ["array", [val..], ty] | ["list", [val..], ty] | ["sarray", [val..], ty, name]
+"""
+from fw import gZ  # noqa: E402
+
+CNAMES = {"ConstInt": "CInt", "ConstF64": "CF64", "ConstString": "CString", "ArrayValue": "CArray",
+          "ListValue": "CList", "StaticArrayValue": "CStatic"}
+
+
+def gcname(s) -> str:
+    return CNAMES[s] if s in CNAMES else gapp("COther", gname(s))
+
+
+def func_out_types(ins, outs):
+    return [ins[o[1]] if o[0] == "in" else val_type_desc(o[1]) for o in outs]
+
+
+def val_type_desc(v):
+    """The type a value description denotes, computed from the description alone (generator side)."""
+    k = v[0]
+    if k == "sum":
+        return v[2]
+    if k == "unitsum":
+        return ["unit", v[2]]
+    if k == "bool":
+        return ["bool"]
+    if k == "tuple":
+        return ["tuple", [val_type_desc(x) for x in v[1]]]
+    if k == "some":
+        return ["option", [val_type_desc(x) for x in v[1]]]
+    if k == "none":
+        return ["option", v[1]]
+    if k == "left":
+        return ["either", [val_type_desc(x) for x in v[1]], v[2]]
+    if k == "right":
+        return ["either", v[1], [val_type_desc(x) for x in v[2]]]
+    if k == "func":
+        return ["func", v[2], func_out_types(v[2], v[3]), []]
+    if k == "ext":
+        return v[2]
+    if k == "int":
+        return ["int", v[2]]
+    if k == "float":
+        return ["float"]
+    if k == "string":
+        return ["string"]
+    if k == "array":
+        return ["array", v[2], len(v[1])]
+    if k == "list":
+        return ["list", v[2]]
+    if k == "sarray":
+        return ["sarray", v[2]]
+    raise ValueError(v)
+
+
+def build_func_body(kind, ins, outs):
+    from hugr.build.dfg import Dfg, Function
+    tin = [build_ty(t) for t in ins]
+    b = Dfg(*tin) if kind == "dfg" else Function("f", tin)
+    wires = list(b.inputs())
+    res = []
+    for o in outs:
+        res.append(wires[o[1]] if o[0] == "in" else b.load(build_val(o[1])))
+    b.set_outputs(*res)
+    return b.hugr
+
+
+def build_val(v):
+    from hugr import val
+    k = v[0]
+    vs = lambda l: [build_val(x) for x in l]
+    ts = lambda l: [build_ty(x) for x in l]
+    if k == "sum":
+        return val.Sum(v[1], build_ty(v[2]), vs(v[3]))
+    if k == "unitsum":
+        return val.UnitSum(v[1], v[2])
+    if k == "bool":
+        if len(v) == 3:                       # the module-level constants
+            return val.TRUE if v[1] else val.FALSE
+        return val.bool_value(v[1])
+    if k == "tuple":
+        return val.Tuple(*vs(v[1]))
+    if k == "some":
+        return val.Some(*vs(v[1]))
+    if k == "none":
+        return val.None_(*ts(v[1]))
+    if k == "left":
+        return val.Left(vs(v[1]), ts(v[2]))
+    if k == "right":
+        return val.Right(ts(v[1]), vs(v[2]))
+    if k == "func":
+        return val.Function(build_func_body(v[1], v[2], v[3]))
+    if k == "ext":
+        return val.Extension(v[1], build_ty(v[2]), {"payload": 1}, list(v[3]))
+    if k == "int":
+        from hugr.std.int import IntVal
+        return IntVal(v[1], v[2])
+    if k == "float":
+        from hugr.std.float import FloatVal
+        return FloatVal(v[1])
+    if k == "string":
+        from hugr.std.prelude import StringVal
+        return StringVal(v[1])
+    if k == "array":
+        from hugr.std.collections.array import ArrayVal
+        return ArrayVal(vs(v[1]), build_ty(v[2]))
+    if k == "list":
+        from hugr.std.collections.list import ListVal
+        return ListVal(vs(v[1]), build_ty(v[2]))
+    if k == "sarray":
+        from hugr.std.collections.static_array import StaticArrayVal
+        return StaticArrayVal(vs(v[1]), build_ty(v[2]), v[3])
+    raise ValueError(v)
+
+
+def gtyd(t) -> str:
+    """Gallina literal of a type description (through the real object the implementation builds for it)."""
+    return gty(build_ty(t))
+
+
+def gfsig(ins, outs_t) -> str:
+    return "{| fs_in := %s; fs_out := %s; fs_reqs := [] |}" % (glist(gtyd(t) for t in ins), glist(gtyd(t) for t in outs_t))
+
+
+def gvexpr(v) -> str:
+    k = v[0]
+    vs = lambda l: glist(gvexpr(x) for x in l)
+    ts = lambda l: glist(gtyd(x) for x in l)
+    if k == "sum":
+        return gapp("ESum", gnat(v[1]), gtyd(v[2]), vs(v[3]))
+    if k == "unitsum":
+        return gapp("EUnitSum", gnat(v[1]), gnat(v[2]))
+    if k == "bool":
+        return gapp("EBool", fw.gbool(v[1]))
+    if k == "tuple":
+        return gapp("ETuple", vs(v[1]))
+    if k == "some":
+        return gapp("ESome", vs(v[1]))
+    if k == "none":
+        return gapp("ENone", ts(v[1]))
+    if k == "left":
+        return gapp("ELeft", vs(v[1]), ts(v[2]))
+    if k == "right":
+        return gapp("ERight", ts(v[1]), vs(v[2]))
+    if k == "func":
+        return gapp("EFunc", gfsig(v[2], func_out_types(v[2], v[3])))
+    if k == "ext":
+        return gapp("EExt", gcname(v[1]), gtyd(v[2]), glist(gname(x) for x in v[3]))
+    if k == "int":
+        return gapp("EInt", gZ(v[1]), gnat(v[2]))
+    if k == "float":
+        return "EFloat"
+    if k == "string":
+        return "EString"
+    if k == "array":
+        return gapp("EArray", vs(v[1]), gtyd(v[2]))
+    if k == "list":
+        return gapp("EList", vs(v[1]), gtyd(v[2]))
+    if k == "sarray":
+        return gapp("EStatic", vs(v[1]), gtyd(v[2]), gname(v[3]))
+    raise ValueError(v)
+
+
+def gstd() -> str:
+    """The type definitions the std value classes instantiate, as hugr-py loaded them."""
+    from hugr.std.int import INT_T_DEF
+    from hugr.std.float import FLOAT_TYPES_EXTENSION
+    from hugr.std.prelude import STRING_T_DEF
+    from hugr.std.collections import array, list as list_, static_array
+    return ("{| d_int := %s; d_float := %s; d_string := %s; d_array := %s; d_list := %s; d_static := %s |}" % (
+        gdef(INT_T_DEF), gdef(FLOAT_TYPES_EXTENSION.types["float64"]), gdef(STRING_T_DEF),
+        gdef(array.EXTENSION.types["array"]), gdef(list_.EXTENSION.types["List"]),
+        gdef(static_array.EXTENSION.types["static_array"])))
+
+
+# ----------------------------------------------------------------------------- decoding the serial JSON
+
+
+def _keys(d, *ks):
+    if set(d) != set(ks):
+        raise ValueError(f"unexpected serial fields {sorted(d)} (expected {sorted(ks)})")
+
+
+def jparam(p) -> str:
+    tp = p["tp"]
+    if tp == "Type":
+        _keys(p, "tp", "b")
+        return gapp("PType", gbound(p["b"]))
+    if tp == "BoundedNat":
+        _keys(p, "tp", "bound")
+        return gapp("PNat", gopt(None if p["bound"] is None else gN(p["bound"])))
+    if tp == "String":
+        return "PString"
+    if tp == "List":
+        return gapp("PList", jparam(p["param"]))
+    if tp == "Tuple":
+        return gapp("PTuple", glist(jparam(x) for x in p["params"]))
+    if tp == "Extensions":
+        return "PExts"
+    raise ValueError(p)
+
+
+def jarg(a) -> str:
+    k = a["tya"]
+    if k == "Type":
+        _keys(a, "tya", "ty")
+        return gapp("AType", jty(a["ty"]))
+    if k == "BoundedNat":
+        _keys(a, "tya", "n")
+        return gapp("ANat", gN(a["n"]))
+    if k == "String":
+        _keys(a, "tya", "arg")
+        return gapp("AString", gname(a["arg"]))
+    if k == "Sequence":
+        _keys(a, "tya", "elems")
+        return gapp("ASeq", glist(jarg(x) for x in a["elems"]))
+    if k == "Extensions":
+        _keys(a, "tya", "es")
+        return gapp("AExts", glist(gname(x) for x in a["es"]))
+    if k == "Variable":
+        _keys(a, "tya", "idx", "cached_decl")
+        return gapp("AVar", gnat(a["idx"]), jparam(a["cached_decl"]))
+    raise ValueError(a)
+
+
+def jty(t) -> str:
+    """A serial (JSON) type as a Types.v literal: extension types are opaque here."""
+    k = t["t"]
+    row = lambda r: glist(jty(x) for x in r)
+    if k == "Sum":
+        if t["s"] == "Unit":
+            _keys(t, "t", "s", "size")
+            return gapp("TUnitSum", gnat(t["size"]))
+        _keys(t, "t", "s", "rows")
+        return gapp("TSum", glist(row(r) for r in t["rows"]))
+    if k == "V":
+        _keys(t, "t", "i", "b")
+        return gapp("TVar", gnat(t["i"]), gbound(t["b"]))
+    if k == "R":
+        _keys(t, "t", "i", "b")
+        return gapp("TRowVar", gnat(t["i"]), gbound(t["b"]))
+    if k == "I":
+        return "TUSize"
+    if k == "Q":
+        return "TQubit"
+    if k == "Alias":
+        _keys(t, "t", "bound", "name")
+        return gapp("TAlias", gname(t["name"]), gbound(t["bound"]))
+    if k == "G":
+        _keys(t, "t", "input", "output", "runtime_reqs")
+        return gapp("TFunc", row(t["input"]), row(t["output"]), glist(gname(x) for x in sorted(t["runtime_reqs"])))
+    if k == "Opaque":
+        _keys(t, "t", "extension", "id", "args", "bound")
+        return gapp("TOpaque", gname(t["extension"]), gname(t["id"]), glist(jarg(a) for a in t["args"]), gbound(t["bound"]))
+    raise ValueError(t)
+
+
+def jfsig(g) -> str:
+    _keys(g, "t", "input", "output", "runtime_reqs")
+    return "{| fs_in := %s; fs_out := %s; fs_reqs := %s |}" % (
+        glist(jty(x) for x in g["input"]), glist(jty(x) for x in g["output"]),
+        glist(gname(x) for x in sorted(g["runtime_reqs"])))
+
+
+def jval(v) -> str:
+    """A serial (JSON) value as a Values.v `sval` literal (fails closed on unexpected shapes)."""
+    k = v["v"]
+    if k == "Sum":
+        _keys(v, "v", "tag", "typ", "vs")
+        return gapp("SSum", gnat(v["tag"]), jty(v["typ"]), glist(jval(x) for x in v["vs"]))
+    if k == "Tuple":
+        _keys(v, "v", "vs")
+        return gapp("STuple", glist(jval(x) for x in v["vs"]))
+    if k == "Function":
+        _keys(v, "v", "hugr")
+        nodes = v["hugr"]["nodes"]
+        root = nodes[0]
+        if root["op"] == "DFG":
+            sig = root["signature"]
+        elif root["op"] == "FuncDefn" and root["signature"]["params"] == []:
+            sig = root["signature"]["body"]
+        else:
+            raise ValueError("function value whose root is " + root["op"])
+        ins = [n for i, n in enumerate(nodes) if i > 0 and n["parent"] == 0 and n["op"] == "Input"]
+        outs = [n for i, n in enumerate(nodes) if i > 0 and n["parent"] == 0 and n["op"] == "Output"]
+        if len(ins) != 1 or len(outs) != 1:
+            raise ValueError("function body without exactly one Input and one Output")
+        return gapp("SFunc", jfsig(sig), glist(jty(x) for x in ins[0]["types"]), glist(jty(x) for x in outs[0]["types"]))
+    if k == "Extension":
+        _keys(v, "v", "extensions", "typ", "value")
+        _keys(v["value"], "c", "v")
+        c, p = v["value"]["c"], v["value"]["v"]
+        payload = "SPOther"
+        if c == "ConstInt" and isinstance(p, dict) and set(p) == {"log_width", "value"}:
+            payload = gapp("SPInt", gnat(p["log_width"]), gZ(p["value"]))
+        elif c == "ConstF64" and isinstance(p, dict) and set(p) == {"value"}:
+            payload = "SPFloat"
+        elif c == "ConstString" and isinstance(p, dict) and set(p) == {"value"}:
+            payload = "SPString"
+        elif c in ("ArrayValue", "ListValue") and isinstance(p, dict) and set(p) == {"values", "typ"}:
+            payload = gapp("SPSeq", glist(jval(x) for x in p["values"]), jty(p["typ"]))
+        elif (c == "StaticArrayValue" and isinstance(p, dict) and set(p) == {"value", "name"}
+              and isinstance(p["value"], dict) and set(p["value"]) == {"values", "typ"}):
+            payload = gapp("SPStatic", glist(jval(x) for x in p["value"]["values"]), jty(p["value"]["typ"]), gname(p["name"]))
+        return gapp("SExt", gcname(c), jty(v["typ"]), payload, glist(gname(x) for x in v["extensions"]))
+    raise ValueError(v)
+
+
+# ----------------------------------------------------------------------------- random values
+
+
+def rand_vty(rng, depth):
+    """A type description for which rand_val_of can build a value with the helpers/std classes."""
+    r = rng.random()
+    if depth <= 0 or r < 0.3:
+        return rng.choice([["bool"], ["unit", rng.choice([1, 1, 2, 3, 4])], ["int", rng.randint(0, 6)], ["float"], ["string"],
+                           ["tuple", []], ["usize"], ["qubit"], ["opaque", "e.one", "T", [], "C"]])
+    r = rng.random()
+    row = lambda: [rand_vty(rng, depth - 1) for _ in range(rng.choice([0, 1, 1, 2, 3]))]
+    if r < 0.2:
+        return ["tuple", row()]
+    if r < 0.32:
+        return ["option", row()]
+    if r < 0.44:
+        return ["either", row(), row()]
+    if r < 0.62:
+        rows = [row() for _ in range(rng.choice([1, 2, 2, 3, 4]))]
+        return ["sum", rows]
+    if r < 0.76:
+        return ["array", rand_vty(rng, depth - 1), rng.choice([0, 1, 2, 3])]
+    if r < 0.88:
+        return ["list", rand_vty(rng, depth - 1)]
+    return ["sarray", rand_ty(rng, depth - 1, True) if rng.random() < 0.3 else rand_cvty(rng, depth - 1)]
+
+
+def rand_cvty(rng, depth):
+    """Like rand_vty but copyable by construction (elements of static arrays)."""
+    for _ in range(50):
+        t = rand_vty(rng, depth)
+        if desc_copyable(t):
+            return t
+    return ["bool"]
+
+
+def desc_copyable(t) -> bool:
+    k = t[0]
+    if k in ("qubit",):
+        return False
+    if k in ("var", "rowvar", "alias"):
+        return t[2] == "C"
+    if k == "opaque":
+        return t[4] == "C"
+    if k == "ext":
+        b = t[1]["bound"]
+        if b[0] == "E":
+            return b[1] == "C"
+        return all(desc_copyable(t[2][i][1]) for i in b[1] if t[2][i][0] == "t")
+    if k in ("func", "poly", "sarray", "int", "float", "string", "usize", "bool", "unit"):
+        return True
+    return all(desc_copyable(c) for c in child_types(t))
+
+
+def rand_func(rng, depth):
+    ins = [rand_ty(rng, min(depth, 2), False) for _ in range(rng.choice([0, 1, 2, 3]))]
+    outs = []
+    for i, t in enumerate(ins):
+        if desc_copyable(t):
+            outs += [["in", i]] * rng.choice([0, 1, 1, 2])
+        else:
+            outs.append(["in", i])
+    for _ in range(rng.choice([0, 0, 1, 2])):
+        outs.append(["const", rng.choice([["int", rng.randint(0, 200), rng.randint(3, 6)], ["bool", rng.random() < 0.5],
+                                          ["float", 1.5]])])
+    rng.shuffle(outs)
+    return ["func", rng.choice(["dfg", "dfg", "defn"]), ins, outs]
+
+
+def rand_val_of(rng, t, depth):
+    """A value description of (exactly) the type t."""
+    k = t[0]
+    vals = lambda row: [rand_val_of(rng, x, depth - 1) for x in row]
+    if k == "bool":
+        r = rng.random()
+        if r < 0.5:
+            return ["bool", rng.random() < 0.5]
+        return ["bool", rng.random() < 0.5, "const"] if r < 0.8 else ["unitsum", rng.randint(0, 1), 2]
+    if k == "unit" and t[1] > 0:
+        return ["unitsum", rng.randrange(t[1]), t[1]]
+    if k == "tuple":
+        return ["tuple", vals(t[1])] if rng.random() < 0.8 else ["sum", 0, ["sum", [t[1]]], vals(t[1])]
+    if k == "option":
+        r = rng.random()
+        if r < 0.45:
+            return ["some", vals(t[1])]
+        if r < 0.85:
+            return ["none", t[1]]
+        tag = rng.randint(0, 1)
+        return ["sum", tag, t, vals([[], t[1]][tag])]
+    if k == "either":
+        r = rng.random()
+        if r < 0.45:
+            return ["left", vals(t[1]), t[2]]
+        if r < 0.9:
+            return ["right", t[1], vals(t[2])]
+        tag = rng.randint(0, 1)
+        return ["sum", tag, t, vals(t[1 + tag])]
+    if k == "sum" and t[1]:
+        tag = rng.randrange(len(t[1]))
+        return ["sum", tag, t, vals(t[1][tag])]
+    if k == "int":
+        return ["int", rng.randrange(1 << (1 << t[1])) if rng.random() < 0.7 else rng.choice([0, 1]), t[1]]
+    if k == "float":
+        return ["float", rng.choice([0.0, 1.5, -2.25, 1e10])]
+    if k == "string":
+        return ["string", rng.choice(["", "a", "hello world", "é"])]
+    if k == "array" and isinstance(t[2], int):
+        return ["array", [rand_val_of(rng, t[1], depth - 1) for _ in range(t[2])], t[1]]
+    if k == "list":
+        return ["list", [rand_val_of(rng, t[1], depth - 1) for _ in range(rng.choice([0, 1, 2, 3]))], t[1]]
+    if k == "sarray":
+        return ["sarray", [rand_val_of(rng, t[1], depth - 1) for _ in range(rng.choice([0, 1, 2]))], t[1],
+                rng.choice(["arr", "tbl"])]
+    # every type has opaque extension constants
+    return ["ext", rng.choice(["my_const", "other.const"]), t, rng.sample(EXTS, rng.randint(0, 2))]
+
+
+def rand_val(rng, depth):
+    """A well-typed value description: values of generated types, helper towers over arbitrary values
+    (functions included), collections of copies."""
+    r = rng.random()
+    if depth <= 0 or r < 0.35:
+        return rand_val_of(rng, rand_vty(rng, depth), depth)
+    if r < 0.47:
+        return rand_func(rng, depth)
+    kids = lambda: [rand_val(rng, depth - 1) for _ in range(rng.choice([0, 1, 1, 2, 3]))]
+    trow = lambda: [rand_ty(rng, depth - 1, False) for _ in range(rng.choice([0, 1, 2]))]
+    if r < 0.57:
+        return ["tuple", kids()]
+    if r < 0.65:
+        return ["some", kids()]
+    if r < 0.7:
+        return ["none", trow()]
+    if r < 0.78:
+        return ["left", kids(), trow()]
+    if r < 0.86:
+        return ["right", trow(), kids()]
+    v = rand_val(rng, depth - 1)
+    t = val_type_desc(v)
+    n = rng.choice([1, 2, 3])
+    if r < 0.92:
+        return ["array", [v] * n, t]
+    if r < 0.97 or not desc_copyable(t):
+        return ["list", [v] * n, t]
+    return ["sarray", [v] * n, t, "tbl"]
+
+
+def child_vals(v):
+    k = v[0]
+    if k == "sum":
+        return v[3]
+    if k in ("tuple", "some", "left", "array", "list", "sarray"):
+        return v[1]
+    if k == "right":
+        return v[2]
+    if k == "func":
+        return [o[1] for o in v[3] if o[0] == "const"]
+    return []
+
+
+def vdepth(v) -> int:
+    cs = child_vals(v)
+    return 1 + max(map(vdepth, cs)) if cs else 0
+
+
+def vkinds(v, acc=None):
+    acc = {} if acc is None else acc
+    acc[v[0]] = acc.get(v[0], 0) + 1
+    for c in child_vals(v):
+        vkinds(c, acc)
+    return acc
+
+
+def break_val(rng, v):
+    """An ill-typed neighbour of a (well-typed) value description, or None."""
+    k = v[0]
+    r = rng.random()
+    if k == "sum":
+        rows = v[2][1] if v[2][0] == "sum" else None
+        if r < 0.3:
+            return ["sum", v[1] + rng.choice([1, 2, 5]), v[2], v[3]]                      # other / out-of-range tag
+        if r < 0.6 and v[3]:
+            i = rng.randrange(len(v[3]))
+            return ["sum", v[1], v[2], v[3][:i] + [["string", "x"] if v[3][i][0] != "string" else ["bool", True]] + v[3][i + 1:]]
+        if r < 0.8:
+            return ["sum", v[1], v[2], v[3] + [["bool", False]]]                          # one field too many
+        if v[3]:
+            return ["sum", v[1], v[2], v[3][:-1]]
+    if k == "unitsum":
+        return ["unitsum", v[2] + rng.choice([0, 1, 3]), v[2]]
+    if k in ("array", "list", "sarray") and v[1]:
+        i = rng.randrange(len(v[1]))
+        bad = ["float", 0.5] if v[1][i][0] != "float" else ["bool", True]
+        return [k, v[1][:i] + [bad] + v[1][i + 1:]] + v[2:]
+    if k == "int":
+        return ["int", v[1], 7 + rng.randint(0, 2)]
+    if k == "ext":
+        return ["ext", rng.choice(["ConstInt", "ArrayValue", "ConstF64"]), v[2], v[3]]
+    if k in ("tuple", "some") and v[1]:
+        i = rng.randrange(len(v[1]))
+        b = break_val(rng, v[1][i])
+        return None if b is None else [k, v[1][:i] + [b] + v[1][i + 1:]]
+    return None
+
+
+def shrink_val(v):
+    for c in child_vals(v):
+        yield c
+    k = v[0]
+    pos = {"sum": 3, "tuple": 1, "some": 1, "left": 1, "right": 2, "array": 1, "list": 1, "sarray": 1}.get(k)
+    if pos is not None and k not in ("sum",):
+        l = v[pos]
+        for i in range(len(l)):
+            yield v[:pos] + [l[:i] + l[i + 1:]] + v[pos + 1:]
+            for s in shrink_val(l[i]):
+                if k in ("array", "list", "sarray"):
+                    continue
+                yield v[:pos] + [l[:i] + [s] + l[i + 1:]] + v[pos + 1:]
+    if k == "func":
+        for i in range(len(v[3])):
+            yield v[:3] + [v[3][:i] + v[3][i + 1:]]
